@@ -11,6 +11,10 @@ func GetQuote(content bytes.Bytes, position bytes.Index) string {
 
 func quote(content bytes.Bytes, position bytes.Index) string {
 	const maxLength = 200
+	if content.Len() == 0 {
+		// Nothing to quote in an empty file (e.g. an empty included file).
+		return ""
+	}
 	begin := content.BeginningOfLine(position)
 	end := content.EndOfLine(position)
 	if end-begin > maxLength {
